@@ -103,7 +103,18 @@ def c18b(db, res):
                         dang[0] = s2
                         return True
                     return False
-                ends, ex = C.forward(f, (b, i), visit)
+                known = {(a_[0], a_[2]): a_[1] for a_, e_ in P.facts_at(f, b) if a_[1] in ('==', '!=')}
+
+                def edge_feasible(bb, j):
+                    # an edge that contradicts what is known where the free happens (`if (l == NULL) return;` in front of it) is not a way out
+                    c_ = f.cond_of(bb)
+                    if not c_:
+                        return True
+                    a_ = P.canon(c_[0], j == 0)
+                    if a_ and a_[1] in ('==', '!=') and (a_[0], a_[2]) in known and known[(a_[0], a_[2])] != a_[1] and a_[0] not in {P.K(w_['l']) for b3, i3, s3 in f.stmts() for w_ in nodes(s3, lambda y: y.get('k') == 'assign')}:
+                        return False
+                    return True
+                ends, ex = C.forward(f, (b, i), visit, edge_feasible)
                 if ex and dang[0] is None:
                     dang[0] = {'loc': f.end or f.loc}
                 key = '%s:free(%s)' % (name, Pk)
